@@ -286,7 +286,8 @@ def cli_c01_sample(bins, tier, seed):
         for tp in tpaths:
             u, g = random_lists(tp)
             ts.append({"path": tp, "uses": u, "ignores": g})
-        fx = fixture.Fixture(bins, ts, gitignore="Monorail.json\n" if i % 2 else "")
+        fx = fixture.Fixture(bins, ts, gitignore="Monorail.json\n" if i % 2 else "", sepgit=(i % 3 == 1),
+                             via=("plain", "link", "dotdot")[i % 3], ignore_via=("tree", "info", "global")[(i // 2) % 3])
         recs = []
         try:
             for d in dirs:
